@@ -1,14 +1,20 @@
 import PxProofs.PersistRefine
 import PxProofs.ForwardEmit
 /-!
-# C04 helper lemmas, part 3: the segment-level run on requests that never share a segment
+# C04 helper lemmas, part 3: a stream of requests through the follow-up loop, any packing
 
 `oneReq x = some P`: fed to a fresh request parser in one piece, `x` is exactly
-one request — complete, nothing left over.  By C03 (`feed_segmented`, built on
-`C03_segmentation_request`) every way of cutting `x` into non-empty pieces
-reaches the same `P` exactly with the last piece.  Hence the handler's
-first-request loop and `HttpProxyPlugin.on_client_data`'s pipeline parser each
-consume exactly the pieces of one request and emit once.
+one request — complete, nothing left over.  By C03 (`C03_segmentation_request`,
+`no_prefix_complete`, `parse_of_complete`) a parser that has been fed a strict
+prefix `d` of `x` and is now fed `seg`
+
+* stays incomplete (and canonical) while `d ++ seg` is a strict prefix of `x`,
+* is complete exactly when `d ++ seg = x ++ c`, with `c` as its leftover.
+
+`pipeLoop_stream`: hence the loop of fix 84c574d, fed any segment of the stream
+`x₁ ++ x₂ ++ …`, completes exactly the requests that end inside the segment, each
+handed over as its one-piece parse (up to the byte counter), and is left canonical
+for the rest.  `loopSegs_stream`: the same over any list of segments.
 -/
 namespace Px.Persist
 open Px Px.Relay Px.Parser
@@ -33,165 +39,292 @@ theorem oneReq_spec {x : Bytes} {P : Parser} (h : oneReq x = some P) :
       exact ⟨rfl, hc.1, hc.2⟩
     · simp [hc] at h
 
-/-- `segs` cuts `x` into non-empty pieces (what successive `recv` calls return) -/
-def Cuts (segs : List Bytes) (x : Bytes) : Prop := segs.flatten = x ∧ ∀ s ∈ segs, s ≠ []
+theorem oneReq_ne_nil {x : Bytes} {P : Parser} (h : oneReq x = some P) : x ≠ [] := by
+  intro hx
+  subst hx
+  have : oneReq [] = none := by decide +kernel
+  rw [this] at h; cases h
 
-theorem flatten_nil_of_nonempty {l : List Bytes} (h : l.flatten = []) (hne : ∀ s ∈ l, s ≠ []) : l = [] := by
-  cases l with
-  | nil => rfl
-  | cons a as =>
-    simp only [List.flatten_cons, List.append_eq_nil_iff] at h
-    exact absurd h.1 (hne a (by simp))
-
-/-- the pieces left over by the first-request loop are pieces of the input -/
-theorem feedUntilComplete_rest {pc : Px.Parser.Cfg} {p P : Parser} {segs rest : List Bytes}
-    (h : Forward.feedUntilComplete pc p segs = .ok (P, rest)) : ∀ s ∈ rest, s ∈ segs := by
-  induction segs generalizing p with
-  | nil => simp only [Forward.feedUntilComplete, Except.ok.injEq, Prod.mk.injEq] at h; rw [← h.2]; simp
-  | cons x xs ih =>
-    unfold Forward.feedUntilComplete at h
-    split at h
-    · simp at h
-    · split at h
-      · simp only [Except.ok.injEq, Prod.mk.injEq] at h; rw [← h.2]; intro s hs; simp [hs]
-      · intro s hs; simp [ih h s hs]
-
-/-- every cut of one request is consumed exactly by the feeding loop -/
-theorem feed_cuts {x : Bytes} {P : Parser} (h : oneReq x = some P) {segs : List Bytes} (hc : Cuts segs x) :
-    Forward.feedUntilComplete Forward.pcfg (init .request) segs = .ok (P, []) := by
-  obtain ⟨hp, hst, hb⟩ := oneReq_spec h
-  obtain ⟨rest, hf, hr⟩ := Forward.feed_segmented hp hst hb segs hc.1
-  have : rest = [] := flatten_nil_of_nonempty hr (fun s hs => hc.2 s (feedUntilComplete_rest hf s hs))
-  rw [this] at hf
-  exact hf
-
-/-- the handler's first-request phase over the pieces of one request -/
-theorem segRun_first (cfg : Forward.Cfg) (ok : Bool) (segs : List Bytes) (p P : Parser)
-    (hf : Forward.feedUntilComplete Forward.pcfg p segs = .ok (P, [])) (hc : P.state = .complete)
-    (hnc : p.state ≠ .complete) (a : Connect.Addr) (q : Bytes)
-    (hfc : firstComplete cfg ok P = .established a q) :
-    segRun cfg ok (.first p) segs = some (.http P none, q, [a]) := by
-  induction segs generalizing p with
-  | nil =>
-    simp only [Forward.feedUntilComplete, Except.ok.injEq, Prod.mk.injEq] at hf
-    rw [hf.1] at hnc; exact absurd hc hnc
-  | cons s ss ih =>
-    unfold Forward.feedUntilComplete at hf
-    cases hp : parse Forward.pcfg p s with
-    | error e => simp [hp] at hf
-    | ok p' =>
-      simp only [hp] at hf
-      by_cases hpc : p'.state = .complete
-      · simp only [hpc, beq_self_eq_true, if_true, Except.ok.injEq, Prod.mk.injEq] at hf
-        obtain ⟨rfl, rfl⟩ := hf
-        have ha : appOf cfg ok (.first p) s = (.http p' none, .ok none none false, some (.http, [q]), some a) := by
-          unfold appOf
-          simp only [hp, hpc, bne_self_eq_false, Bool.false_eq_true, if_false, hfc]
-        simp [segRun, ha, smooth, items, conns]
-      · have hb : (p'.state == PState.complete) = false := by simpa using hpc
-        simp only [hb, Bool.false_eq_true, if_false] at hf
-        have ha : appOf cfg ok (.first p) s = (.first p', .ok none none false, none, none) := by
-          unfold appOf
-          have : (p'.state != PState.complete) = true := by simpa using hpc
-          simp only [hp, this, if_true]
-        rw [segRun, ha]
-        simp only [smooth, if_true, Bool.and_self]
-        rw [ih p' hf hpc]
-        simp [items, conns]
-
-/-- `on_client_data`'s pipeline parser over the pieces of one follow-up request -/
-theorem segRun_later (cfg : Forward.Cfg) (ok : Bool) (req : Parser) (segs : List Bytes) (p P : Parser)
-    (hf : Forward.feedUntilComplete Forward.pcfg p segs = .ok (P, [])) (hc : P.state = .complete)
-    (hnc : p.state ≠ .complete) (q : Bytes)
-    (hb : Forward.buildFor cfg (Forward.treatLater cfg P) = .ok q)
-    (hu : isUpgrade (Forward.treatLater cfg P) = false)
-    (pipe : Option Parser) (hpipe : pipe = some p ∨ (pipe = none ∧ p = init .request)) :
-    segRun cfg ok (.http req pipe) segs = some (.http req none, q, []) := by
-  induction segs generalizing p pipe with
-  | nil =>
-    simp only [Forward.feedUntilComplete, Except.ok.injEq, Prod.mk.injEq] at hf
-    rw [hf.1] at hnc; exact absurd hc hnc
-  | cons s ss ih =>
-    unfold Forward.feedUntilComplete at hf
-    cases hp : parse Forward.pcfg p s with
-    | error e => simp [hp] at hf
-    | ok p' =>
-      simp only [hp] at hf
-      have hps : pipeStep cfg pipe s =
-          (if p'.state == .complete then
-            (match Forward.buildFor cfg (Forward.treatLater cfg p') with
-             | .error _ => (some (Forward.treatLater cfg p'), .raised)
-             | .ok x => (if isUpgrade (Forward.treatLater cfg p') then some (Forward.treatLater cfg p') else none,
-                 .ok (some x) none false))
-           else (some p', .ok none none false)) := by
-        have hncb : (p.state == PState.complete) = false := by simpa using hnc
-        rcases hpipe with rfl | ⟨rfl, rfl⟩
-        · unfold pipeStep
-          simp only [hncb, Bool.false_and, Bool.false_eq_true, if_false, hp]
-          rfl
-        · unfold pipeStep
-          simp only [hp]
-          rfl
-      by_cases hpc : p'.state = .complete
-      · simp only [hpc, beq_self_eq_true, if_true, Except.ok.injEq, Prod.mk.injEq] at hf
-        obtain ⟨rfl, rfl⟩ := hf
-        simp only [hpc, beq_self_eq_true, if_true, hb, hu, Bool.false_eq_true, if_false] at hps
-        rw [segRun, appOf_http, hps]
-        simp [segRun, smooth, items, conns]
-      · have hbb : (p'.state == PState.complete) = false := by simpa using hpc
-        simp only [hbb, Bool.false_eq_true, if_false] at hf hps
-        rw [segRun, appOf_http, hps]
-        simp only [smooth, if_true, Bool.and_self]
-        rw [ih p' hf hpc (some p') (.inl rfl)]
-        simp [items, conns]
-
-/-- the first request of a connection: one request, answered by a connect to `a` and `q` queued -/
-def FirstOk (cfg : Forward.Cfg) (ok : Bool) (x : Bytes) (P : Parser) (a : Connect.Addr) (q : Bytes) : Prop :=
-  oneReq x = some P ∧ firstComplete cfg ok P = .established a q
-
-/-- a follow-up request: one request, forwarded as `q`, not a connection upgrade -/
-def LaterOk (cfg : Forward.Cfg) (x q : Bytes) : Prop :=
-  ∃ P, oneReq x = some P ∧ Forward.buildFor cfg (Forward.treatLater cfg P) = .ok q ∧
-    isUpgrade (Forward.treatLater cfg P) = false
-
-/-- two lists related element by element -/
-inductive All₂ {α β : Type} (R : α → β → Prop) : List α → List β → Prop
-  | nil : All₂ R [] []
-  | cons {a b as bs} : R a b → All₂ R as bs → All₂ R (a :: as) (b :: bs)
+/-- the request as handed over when `n` bytes were counted (the byte counter also counts what
+    followed the request in its segment) -/
+def withTotal (P : Parser) (n : Nat) : Parser := { P with totalSize := n }
 
 theorem init_not_complete : (init .request).state ≠ .complete := by simp [init]
 
-/-- follow-up requests, each cut into its own segments -/
-theorem segRun_laters (cfg : Forward.Cfg) (ok : Bool) (req : Parser) (xs qs : List Bytes) (segss : List (List Bytes))
-    (hl : All₂ (LaterOk cfg) xs qs) (hc : All₂ Cuts segss xs) :
-    segRun cfg ok (.http req none) segss.flatten = some (.http req none, qs.flatten, []) := by
-  induction hl generalizing segss with
-  | nil => cases hc; simp [segRun]
-  | @cons x q xs qs hx _ ih =>
-    cases hc with
-    | @cons segs _ segss' _ hcx hcs =>
-      obtain ⟨P, ho, hb, hu⟩ := hx
-      have h1 := segRun_later cfg ok req segs (init .request) P (feed_cuts ho hcx) (oneReq_spec ho).2.1
-        init_not_complete q hb hu none (.inr ⟨rfl, rfl⟩)
-      rw [List.flatten_cons, segRun_append, h1]
-      simp only [Option.bind_some]
-      rw [ih segss' hcs]
-      simp
+/-- the parser that has been fed the strict prefix `d` of a request (fresh when `d` is empty) -/
+def CanonP (d : Bytes) (p : Parser) : Prop :=
+  (d = [] ∧ p = init .request) ∨
+  (d ≠ [] ∧ parse Forward.pcfg (init .request) d = .ok p ∧ p.state ≠ .complete)
 
-/-- **segment level.**  First request cut into `segs₁`, follow-ups cut into `segss`: the run ends
-    established with an idle pipeline parser; queued for the upstream, in order, is the first request's
-    forward form followed by the follow-ups' forward forms; one connect. -/
-theorem segRun_requests (cfg : Forward.Cfg) (ok : Bool) (x₁ : Bytes) (P₁ : Parser) (a : Connect.Addr) (q₁ : Bytes)
-    (xs qs : List Bytes) (segs₁ : List Bytes) (segss : List (List Bytes))
-    (h1 : FirstOk cfg ok x₁ P₁ a q₁) (hl : All₂ (LaterOk cfg) xs qs)
-    (hc1 : Cuts segs₁ x₁) (hc : All₂ Cuts segss xs) :
-    segRun cfg ok (.first (init .request)) (segs₁ ++ segss.flatten) =
-      some (.http P₁ none, q₁ ++ qs.flatten, [a]) := by
-  have f := segRun_first cfg ok segs₁ (init .request) P₁ (feed_cuts h1.1 hc1) (oneReq_spec h1.1).2.1
-    init_not_complete a q₁ h1.2
-  rw [segRun_append, f]
-  simp only [Option.bind_some]
-  rw [segRun_laters cfg ok P₁ xs qs segss hl hc]
-  simp
+theorem CanonP.incomplete {d : Bytes} {p : Parser} (h : CanonP d p) : p.state ≠ .complete := by
+  rcases h with ⟨_, rfl⟩ | ⟨_, _, h⟩
+  · exact init_not_complete
+  · exact h
+
+/-- feeding `seg` to the canonical parser of `d` is feeding `d ++ seg` to a fresh one -/
+theorem CanonP.parse {d : Bytes} {p : Parser} (h : CanonP d p) (seg : Bytes) :
+    Px.Parser.parse Forward.pcfg p seg = Px.Parser.parse Forward.pcfg (init .request) (d ++ seg) := by
+  rcases h with ⟨rfl, rfl⟩ | ⟨_, hp, _⟩
+  · rfl
+  · have := C03_segmentation_request Forward.pcfg [d, seg] (d ++ seg) (by simp)
+    simp only [parseAll, hp] at this
+    rw [← this]
+    cases Px.Parser.parse Forward.pcfg p seg <;> rfl
+
+/-- … while `d ++ seg` stays a strict prefix of the request: incomplete, canonical -/
+theorem feed_within {x : Bytes} {P : Parser} (ho : oneReq x = some P) {d seg a : Bytes} {p : Parser}
+    (hp : CanonP d p) (hx : x = d ++ seg ++ a) (ha : a ≠ []) (hseg : seg ≠ []) :
+    ∃ p', Px.Parser.parse Forward.pcfg p seg = .ok p' ∧ CanonP (d ++ seg) p' := by
+  obtain ⟨hparse, hst, hb⟩ := oneReq_spec ho
+  obtain ⟨q', hq', hnc⟩ := no_prefix_complete Forward.pcfg (wf_init .request) hparse hst hb (d ++ seg) a hx ha
+  refine ⟨q', by rw [hp.parse]; exact hq', .inr ⟨by simp [hseg], hq', hnc⟩⟩
+
+/-- … when `d ++ seg = x ++ c`: complete, the one-piece parse of `x` up to the byte counter, `c` left over -/
+theorem feed_complete {x : Bytes} {P : Parser} (ho : oneReq x = some P) {d seg c : Bytes} {p : Parser}
+    (hp : CanonP d p) (hx : d ++ seg = x ++ c) :
+    ∃ n p', Px.Parser.parse Forward.pcfg p seg = .ok p' ∧ p'.state = .complete ∧
+      p'.buffer = (if c.isEmpty then none else some c) ∧ ({ p' with buffer := none } : Parser) = withTotal P n := by
+  obtain ⟨hparse, hst, hb⟩ := oneReq_spec ho
+  rw [hp.parse, hx]
+  have := C03_segmentation_request Forward.pcfg [x, c] (x ++ c) (by simp)
+  simp only [parseAll, hparse] at this
+  have h2 : Px.Parser.parse Forward.pcfg (init .request) (x ++ c) = Px.Parser.parse Forward.pcfg P c := by
+    rw [← this]
+    cases Px.Parser.parse Forward.pcfg P c <;> rfl
+  rw [h2, Forward.parse_of_complete Forward.pcfg P c hst]
+  refine ⟨P.totalSize + c.length, _, rfl, hst, by simp [bufBytes, hb], ?_⟩
+  cases P
+  simp only [withTotal] at hb ⊢
+  simp_all
+
+/-! ## the loop on a stream -/
+
+/-- requests still to come, with their one-piece parses -/
+abbrev Reqs := List (Bytes × Parser)
+
+def stream (rs : Reqs) : Bytes := (rs.map (·.1)).flatten
+
+/-- `d` is what has been consumed of the head of `rs`: nothing, or a strict prefix of it -/
+def Pre (rs : Reqs) (d : Bytes) : Prop :=
+  d = [] ∨ ∃ x P tl u, rs = (x, P) :: tl ∧ x = d ++ u ∧ u ≠ []
+
+/-- pipeline parser after the strict prefix `d` of the next request -/
+def Canon (d : Bytes) (pl : Option Parser) : Prop :=
+  CanonP d (pl.getD (init .request)) ∧ (d = [] → pl = none)
+
+/-- the requests as handed over: one-piece parses with some byte counters -/
+def handed : Reqs → List Nat → List Parser
+  | r :: rs, n :: ns => withTotal r.2 n :: handed rs ns
+  | _, _ => []
+
+/-- **one call of the loop on a segment of the stream** -/
+theorem pipeLoop_stream {σ : Type} (h : Hooks σ) (step : σ → Parser → σ) (I : σ → Prop)
+    (hby : ∀ s pl raw, (∀ p, pl = some p → p.state ≠ .complete) → h.bypass s pl raw = none)
+    (rs : Reqs) (hone : ∀ r ∈ rs, oneReq r.1 = some r.2)
+    (hgood : ∀ r ∈ rs, ∀ s n, I s →
+      h.complete s (withTotal r.2 n) = .next (step s (withTotal r.2 n)) none ∧ I (step s (withTotal r.2 n)))
+    (d seg rest : Bytes) (pl : Option Parser) (hcanon : Canon d pl) (hpre : Pre rs d) (hseg : seg ≠ [])
+    (hstream : d ++ seg ++ rest = stream rs) (fuel : Nat) (hfuel : seg.length < fuel) (s : σ) (hI : I s) :
+    ∃ (done rs' : Reqs) (ns : List Nat) (d' : Bytes) (pl' : Option Parser),
+      rs = done ++ rs' ∧ ns.length = done.length ∧
+      pipeLoop h fuel s pl seg = ((handed done ns).foldl step s, pl', .ok) ∧
+      Canon d' pl' ∧ Pre rs' d' ∧ d' ++ rest = stream rs' ∧ I ((handed done ns).foldl step s) := by
+  induction rs generalizing d seg pl fuel s with
+  | nil =>
+    exfalso
+    simp only [stream, List.map_nil, List.flatten_nil, List.append_eq_nil_iff] at hstream
+    exact hseg hstream.1.2
+  | cons r tl ih =>
+    obtain ⟨x, P⟩ := r
+    have ho : oneReq x = some P := hone (x, P) (by simp)
+    have hxne := oneReq_ne_nil ho
+    -- x = d ++ u
+    obtain ⟨u, hxu, hune⟩ : ∃ u, x = d ++ u ∧ u ≠ [] := by
+      rcases hpre with rfl | ⟨x', P', tl', u, he, hx, hu⟩
+      · exact ⟨x, by simp, hxne⟩
+      · simp only [List.cons.injEq, Prod.mk.injEq] at he
+        obtain ⟨⟨rfl, _⟩, _⟩ := he
+        exact ⟨u, hx, hu⟩
+    have hst : seg ++ rest = u ++ stream tl := by
+      have : d ++ (seg ++ rest) = d ++ (u ++ stream tl) := by
+        simp only [stream, List.map_cons, List.flatten_cons] at hstream
+        rw [← List.append_assoc, hstream, hxu, List.append_assoc]
+        rfl
+      exact List.append_cancel_left this
+    obtain ⟨fuel, rfl⟩ : ∃ f, fuel = f + 1 := ⟨fuel - 1, by omega⟩
+    have hsegE : seg.isEmpty = false := by simpa using hseg
+    have hbyp : h.bypass s pl seg = none := by
+      apply hby
+      intro p hp
+      have := hcanon.1.incomplete
+      rw [hp] at this
+      exact this
+    -- does the head request end inside this segment?
+    have hcase : (∃ a, a ≠ [] ∧ u = seg ++ a ∧ rest = a ++ stream tl) ∨ (∃ c, seg = u ++ c ∧ stream tl = c ++ rest) := by
+      rcases List.append_eq_append_iff.1 hst with ⟨a, h1, h2⟩ | ⟨c, h1, h2⟩
+      · by_cases ha : a = []
+        · subst ha
+          exact .inr ⟨[], by simpa using h1.symm, by simpa using h2.symm⟩
+        · exact .inl ⟨a, ha, h1, h2⟩
+      · exact .inr ⟨c, h1, h2⟩
+    rcases hcase with ⟨a, ha, hu, hrest⟩ | ⟨c, hsegc, htl⟩
+    · -- no: the parser stays incomplete
+      obtain ⟨p', hp', hc'⟩ := feed_within ho hcanon.1 (by rw [hxu, hu, List.append_assoc]) ha hseg
+      refine ⟨[], (x, P) :: tl, [], d ++ seg, some p', rfl, rfl, ?_, ⟨hc', fun h0 => ?_⟩, ?_, ?_, by simpa [handed] using hI⟩
+      · unfold pipeLoop
+        simp only [hsegE, Bool.false_eq_true, if_false, hbyp, hp']
+        have : (p'.state == PState.complete) = false := by simpa using hc'.incomplete
+        simp [this, handed]
+      · simp at h0; exact absurd h0.2 hseg
+      · exact .inr ⟨x, P, tl, a, rfl, by rw [hxu, hu, List.append_assoc], ha⟩
+      · simp only [stream, List.map_cons, List.flatten_cons]
+        rw [hrest, hxu, hu]
+        simp [stream, List.append_assoc]
+    · -- yes: it is handed over, the loop goes on with what is left of the segment
+      obtain ⟨n, p', hp', hpst, hpbuf, hclr⟩ :=
+        feed_complete ho hcanon.1 (show d ++ seg = x ++ c by rw [hsegc, hxu, List.append_assoc])
+      obtain ⟨hg, hI'⟩ := hgood (x, P) (by simp) s n hI
+      have hpstb : (p'.state == PState.complete) = true := by simp [hpst]
+      by_cases hc : c = []
+      · subst hc
+        refine ⟨[(x, P)], tl, [n], [], none, rfl, rfl, ?_, ⟨.inl ⟨rfl, rfl⟩, fun _ => rfl⟩, .inl rfl, ?_, by simpa [handed] using hI'⟩
+        · unfold pipeLoop
+          simp only [hsegE, Bool.false_eq_true, if_false, hbyp, hp', hpstb, if_true, hclr, hg, hpbuf,
+            List.isEmpty_nil]
+          simp [handed]
+        · simpa using htl.symm
+      · have hcE : c.isEmpty = false := by simpa using hc
+        have hfuel' : c.length < fuel := by
+          have : seg.length = u.length + c.length := by rw [hsegc]; simp
+          have : 0 < u.length := List.length_pos_iff.mpr hune
+          omega
+        obtain ⟨done, rs', ns, d', pl', e1, e2, e3, e4, e5, e6, e7⟩ :=
+          ih (fun r hr => hone r (by simp [hr])) (fun r hr => hgood r (by simp [hr])) [] c none
+            ⟨.inl ⟨rfl, rfl⟩, fun _ => rfl⟩ (.inl rfl) hc (by simpa using htl.symm) fuel hfuel'
+            (step s (withTotal P n)) hI'
+        refine ⟨(x, P) :: done, rs', n :: ns, d', pl', by rw [e1]; rfl, by simp [e2], ?_, e4, e5, e6,
+          by simpa [handed] using e7⟩
+        unfold pipeLoop
+        simp only [hsegE, Bool.false_eq_true, if_false, hbyp, hp', hpstb, if_true, hclr, hg, hpbuf, hcE, e3]
+        simp [handed]
+
+/-! ## … and on any list of segments -/
+
+/-- successive calls of the loop, one per client segment, while it returns normally -/
+def loopSegs {σ : Type} (h : Hooks σ) : σ → Option Parser → List Bytes → σ × Option Parser × LoopEnd
+  | s, pl, [] => (s, pl, .ok)
+  | s, pl, x :: xs =>
+    match pipeLoop h (x.length + 1) s pl x with
+    | (s', pl', .ok) => loopSegs h s' pl' xs
+    | r => r
+
+theorem handed_append (a b : Reqs) (ns ms : List Nat) (h : ns.length = a.length) :
+    handed (a ++ b) (ns ++ ms) = handed a ns ++ handed b ms := by
+  induction a generalizing ns with
+  | nil => cases ns <;> simp_all [handed]
+  | cons r a ih =>
+    cases ns with
+    | nil => simp at h
+    | cons n ns => simp only [List.cons_append, handed, List.cons.injEq, true_and]; exact ih ns (by simpa using h)
+
+theorem handed_length (a : Reqs) (ns : List Nat) (h : ns.length = a.length) : (handed a ns).length = a.length := by
+  induction a generalizing ns with
+  | nil => cases ns <;> simp [handed]
+  | cons r a ih =>
+    cases ns with
+    | nil => simp at h
+    | cons n ns => simp only [handed, List.length_cons]; rw [ih ns (by simpa using h)]
+
+/-- the requests handed over are the one-piece parses, up to the byte counter -/
+theorem handed_spec (a : Reqs) (ns : List Nat) (h : ns.length = a.length) :
+    (handed a ns).map (fun P => withTotal P 0) = a.map (fun r => withTotal r.2 0) := by
+  induction a generalizing ns with
+  | nil => cases ns <;> simp [handed]
+  | cons r a ih =>
+    cases ns with
+    | nil => simp at h
+    | cons n ns =>
+      simp only [handed, List.map_cons, List.cons.injEq]
+      exact ⟨by simp [withTotal], ih ns (by simpa using h)⟩
+
+theorem loopSegs_stream {σ : Type} (h : Hooks σ) (step : σ → Parser → σ) (I : σ → Prop)
+    (hby : ∀ s pl raw, (∀ p, pl = some p → p.state ≠ .complete) → h.bypass s pl raw = none)
+    (segs : List Bytes) (hne : ∀ seg ∈ segs, seg ≠ [])
+    (rs : Reqs) (hone : ∀ r ∈ rs, oneReq r.1 = some r.2)
+    (hgood : ∀ r ∈ rs, ∀ s n, I s →
+      h.complete s (withTotal r.2 n) = .next (step s (withTotal r.2 n)) none ∧ I (step s (withTotal r.2 n)))
+    (d rest : Bytes) (pl : Option Parser) (hcanon : Canon d pl) (hpre : Pre rs d)
+    (hstream : d ++ segs.flatten ++ rest = stream rs) (s : σ) (hI : I s) :
+    ∃ (done rs' : Reqs) (ns : List Nat) (d' : Bytes) (pl' : Option Parser),
+      rs = done ++ rs' ∧ ns.length = done.length ∧
+      loopSegs h s pl segs = ((handed done ns).foldl step s, pl', .ok) ∧
+      Canon d' pl' ∧ Pre rs' d' ∧ d' ++ rest = stream rs' ∧ I ((handed done ns).foldl step s) := by
+  induction segs generalizing rs d pl s with
+  | nil =>
+    exact ⟨[], rs, [], d, pl, rfl, rfl, by simp [loopSegs, handed], hcanon, hpre, by simpa using hstream,
+      by simpa [handed] using hI⟩
+  | cons seg segs ih =>
+    obtain ⟨done1, rs1, ns1, d1, pl1, e1, e2, e3, e4, e5, e6, e7⟩ :=
+      pipeLoop_stream h step I hby rs hone hgood d seg (segs.flatten ++ rest) pl hcanon hpre (hne seg (by simp))
+        (by simpa [List.append_assoc] using hstream) (seg.length + 1) (by omega) s hI
+    have hone1 : ∀ r ∈ rs1, oneReq r.1 = some r.2 := fun r hr => hone r (by rw [e1]; simp [hr])
+    have hgood1 : ∀ r ∈ rs1, ∀ s n, I s →
+        h.complete s (withTotal r.2 n) = .next (step s (withTotal r.2 n)) none ∧ I (step s (withTotal r.2 n)) :=
+      fun r hr => hgood r (by rw [e1]; simp [hr])
+    obtain ⟨done2, rs2, ns2, d2, pl2, f1, f2, f3, f4, f5, f6, f7⟩ :=
+      ih (fun x hx => hne x (by simp [hx])) rs1 hone1 hgood1 d1 pl1 e4 e5
+        (by simpa [List.append_assoc] using e6) ((handed done1 ns1).foldl step s) e7
+    have hh : (handed (done1 ++ done2) (ns1 ++ ns2)).foldl step s =
+        (handed done2 ns2).foldl step ((handed done1 ns1).foldl step s) := by
+      rw [handed_append done1 done2 ns1 ns2 e2, List.foldl_append]
+    refine ⟨done1 ++ done2, rs2, ns1 ++ ns2, d2, pl2, by rw [e1, f1, List.append_assoc], by simp [e2, f2], ?_,
+      f4, f5, f6, by rw [hh]; exact f7⟩
+    rw [loopSegs, e3]
+    simp only
+    rw [f3, hh]
+
+/-- the whole stream delivered: every request handed over, the pipeline parser idle -/
+theorem loopSegs_all {σ : Type} (h : Hooks σ) (step : σ → Parser → σ) (I : σ → Prop)
+    (hby : ∀ s pl raw, (∀ p, pl = some p → p.state ≠ .complete) → h.bypass s pl raw = none)
+    (segs : List Bytes) (hne : ∀ seg ∈ segs, seg ≠ [])
+    (rs : Reqs) (hone : ∀ r ∈ rs, oneReq r.1 = some r.2)
+    (hgood : ∀ r ∈ rs, ∀ s n, I s →
+      h.complete s (withTotal r.2 n) = .next (step s (withTotal r.2 n)) none ∧ I (step s (withTotal r.2 n)))
+    (d : Bytes) (pl : Option Parser) (hcanon : Canon d pl) (hpre : Pre rs d)
+    (hstream : d ++ segs.flatten = stream rs) (s : σ) (hI : I s) :
+    ∃ ns : List Nat, ns.length = rs.length ∧
+      loopSegs h s pl segs = ((handed rs ns).foldl step s, none, .ok) := by
+  obtain ⟨done, rs', ns, d', pl', e1, e2, e3, e4, e5, e6, _⟩ :=
+    loopSegs_stream h step I hby segs hne rs hone hgood d [] pl hcanon hpre (by simpa using hstream) s hI
+  have hone' : ∀ r ∈ rs', oneReq r.1 = some r.2 := fun r hr => hone r (by rw [e1]; simp [hr])
+  have hd' : d' = [] := by
+    rcases e5 with h0 | ⟨x, P, tl, u, hrs, hx, hu⟩
+    · exact h0
+    · exfalso
+      rw [hrs] at e6
+      simp only [stream, List.map_cons, List.flatten_cons, List.append_nil] at e6
+      have := congrArg List.length e6
+      rw [hx] at this
+      simp only [List.length_append] at this
+      have : 0 < u.length := List.length_pos_iff.mpr hu
+      omega
+  subst hd'
+  have hrs' : rs' = [] := by
+    cases rs' with
+    | nil => rfl
+    | cons r tl =>
+      exfalso
+      have := oneReq_ne_nil (hone' r (by simp))
+      simp only [stream, List.map_cons, List.flatten_cons, List.nil_append] at e6
+      have h2 := congrArg List.length e6
+      simp only [List.length_nil, List.length_append] at h2
+      have : 0 < r.1.length := List.length_pos_iff.mpr this
+      omega
+  subst hrs'
+  have hpl : pl' = none := e4.2 rfl
+  subst hpl
+  simp only [List.append_nil] at e1
+  subst e1
+  exact ⟨ns, e2, e3⟩
 
 end Px.Persist
